@@ -941,7 +941,13 @@ pub fn helper_name_rule(cx: &Cx, rep: &mut Report, owner: &str, want: &str) {
 /// writes literally that span - and with it the hygiene context of the user's tokens. A generated local (`this`, `state`), or
 /// `self`, written there stops resolving when the item comes out of a `macro_rules!` macro whose fragment has another context.
 /// Only paths rooted at `::`, names defined inside the same template, and interpolated tokens are safe.
-pub fn span_hygiene_rule(cx: &Cx, rep: &mut Report) {
+pub fn span_hygiene_rule(cx: &Cx, rep: &mut Report, variants: &[&str]) {
+    // only the templates the property's own builders can reach (all of them when no role is named)
+    let scope: Option<std::collections::BTreeSet<String>> = if variants.is_empty() { None } else {
+        let cg = crate::roles::CallGraph::build(&cx.ix);
+        let roots: Vec<String> = cx.roles.iter().filter(|r| variants.contains(&r.variant.as_str())).filter_map(|r| r.callee.clone()).collect();
+        if roots.is_empty() { None } else { Some(cg.reachable(&roots)) }
+    };
     use proc_macro2::TokenTree;
     struct V<'a> { found: Vec<(String, proc_macro2::TokenStream, usize)>, cur: &'a str }
     impl<'ast, 'a> syn::visit::Visit<'ast> for V<'a> {
@@ -954,6 +960,7 @@ pub fn span_hygiene_rule(cx: &Cx, rep: &mut Report) {
     let mut n = 0;
     let mut bad: Vec<(String, String, usize)> = Vec::new();
     for f in cx.ix.fns.values().flatten() {
+        if let Some(sc) = &scope { if !sc.contains(&f.qual) { continue; } }
         let mut v = V { found: vec![], cur: &f.qual };
         syn::visit::Visit::visit_block(&mut v, &f.block);
         for (qual, toks, line) in v.found {
@@ -989,7 +996,7 @@ pub fn span_hygiene_rule(cx: &Cx, rep: &mut Report) {
             }
         }
     }
-    rep.floor("templates emitted under a user-derived span", n, 8);
+    if variants.is_empty() || variants.contains(&"CompareOp") { rep.floor("templates emitted under a user-derived span", n, 8); }
     bad.sort(); bad.dedup();
     if bad.is_empty() { rep.pass("TP-span-hygiene"); }
     for (qual, name, line) in bad {
